@@ -3603,7 +3603,7 @@ namespace regex
         constexpr bool match(match_options opts, const Buffer& buf, Stream& s) const
         {
             auto res = dfa_match(sm, opts, source_point{}, buf.begin(), buf.end(), s);
-            auto end = buf.begin() + res.len;
+            auto end = res.term_idx == 0 ? buf.begin() + res.len : buf.begin();
             if (res.term_idx == 0 && end == buf.end())
                 return true;
             else
@@ -3611,7 +3611,23 @@ namespace regex
                 if (res.term_idx == 0)
                     s << "Leftover text after recognition: " << buf.get_view(end, buf.end()) << "\n";
                 else
-                    s << "Unexpected char: " << utils::c_names.name(*end) << "\n";
+                {
+                    // nothing was recognized, so res.len is not a position: find the first character the automaton cannot consume
+                    auto it = buf.begin();
+                    size16_t state_idx = 0;
+                    while (!(it == buf.end()))
+                    {
+                        size16_t tr = sm[state_idx].transitions[utils::char_to_idx(*it)];
+                        if (tr == uninitialized16)
+                            break;
+                        state_idx = tr;
+                        ++it;
+                    }
+                    if (it == buf.end())
+                        s << "Unexpected end of text\n";
+                    else
+                        s << "Unexpected char: " << utils::c_names.name(*it) << "\n";
+                }
                 return false;
             }
         }
